@@ -95,3 +95,75 @@ def round_nstar(x, max_p, min_n):
     if min_n is None:
         return e_of(x) - max_p
     return ite(min_n >= e_of(x) - max_p, min_n, e_of(x) - max_p)
+
+
+def rnd_at(x, p, n, rm):
+    """
+    Correct rounding of x = (s, exp, c) at absolute position n (no digit at or
+    below n survives), then renormalisation to at most p digits if p is given.
+    Returns (r_exp, r_c, inexact, carry).
+
+    With sh = n+1-exp > 0, P = 2^sh: |x| = (q*P + rho) * 2^exp, so the two
+    neighbours on the grid 2^(n+1) Z are q and q+1 (in units of 2^(n+1)) and
+    `incr` picks one by the definition of the rounding mode.
+    """
+    c = x._c
+    exp = x._exp
+    sh = n + 1 - exp
+    return ((exp, c, False, False) if sh <= 0 else _rnd_grid(x._s, c, pow2(sh), p, n, rm))
+
+
+def _rnd_grid(s, c, P, p, n, rm):
+    q = fdiv(c, P)
+    rho = fmod(c, P)
+    m = q + b2i(incr(rm, s, q, rho, P))
+    carry = rho != 0 and p is not None and bl(m) > p
+    return (ite(carry, n + 2, n + 1), ite(carry, fdiv(m, 2), m), rho != 0, carry)
+
+
+def tiny_pre_spec(x, emin):
+    return emin is not None and (x._c == 0 or e_of(x) < emin)
+
+
+def tiny_post_spec(x, n, emin, rm):
+    """
+    Tininess after rounding (IEEE 754 §7.5): the result of rounding x as though
+    the exponent range were unbounded, at the format's precision pf = emin - n,
+    is below 2^emin in magnitude.  For e(x) < emin that rounding stays below
+    2^emin unless it carries into the binade of 2^emin.
+    """
+    if emin is None:
+        return False
+    pf = emin - n
+    e = e_of(x)
+    R = rnd_at(x, pf, e - pf, rm)
+    return tiny_pre_spec(x, emin) and (x._c == 0 or not (e == emin - 1 and R[3]))
+
+
+# ---------------------------------------------------------------------------
+# stochastic rounding (C17)
+
+def on_grid(x, n):
+    """x has no nonzero digit at or below position n"""
+    sh = n + 1 - x._exp
+    return True if sh <= 0 else fmod(x._c, pow2(sh)) == 0
+
+
+def sr_L(x, n, k, rm):
+    """
+    For x not on the grid at n: the numerator L of the round-away probability
+    L / 2^k, i.e. the distance of x past its lower neighbour in units of 2^-k of
+    the gap, rounded to an integer as mode rm says (rounding x at position n-k).
+    """
+    c = x._c
+    sh = n + 1 - x._exp
+    q = fdiv(c, pow2(sh))
+    sh2 = sh - k
+    return ((fmod(c, pow2(sh)) * pow2(k - sh)) if sh2 <= 0 else
+            (fdiv(c, pow2(sh2)) + b2i(incr(rm, x._s, fdiv(c, pow2(sh2)), fmod(c, pow2(sh2)), pow2(sh2)))
+             - q * pow2(k)))
+
+
+def sr_away(x, n, k, rm, r):
+    """does draw r in [0, 2^k) round x (not on the grid) away from zero?"""
+    return r + sr_L(x, n, k, rm) >= pow2(k)
